@@ -332,6 +332,11 @@ impl SearchState {
             self.upper_bound = self.last_probed_mtu - 1;
         }
 
+        // Nothing left to search: a probe at or below the lower bound could only lower the estimate
+        if self.upper_bound <= self.lower_bound {
+            return None;
+        }
+
         let next_mtu = (self.lower_bound as i32 + self.upper_bound as i32) / 2;
 
         // Binary search stopping condition
